@@ -1,8 +1,8 @@
 (* C19 - derived equality, order and text are coherent; sorting is right.  Statements only; proofs in Ord/DerivedProofs.v.
    [vcmp] is the component-wise, lexicographic comparison the library derives for nested values; [isort] the reference
    stable sort the interpreter's sort / order-statistic functions are compared with. *)
-From Coq Require Import List ZArith NArith Bool Permutation Sorted.
-From Xr Require Import Ord.Derived Ord.DerivedProofs Ord.Pad Ord.TimSort Ord.TimSortProofs.
+From Coq Require Import List ZArith NArith Bool Permutation Sorted Lia.
+From Xr Require Import Ord.Derived Ord.DerivedProofs Ord.Pad Ord.TimSort Ord.TimSortProofs Ord.TimSortTrace Ord.TimSortTraceProofs.
 Import ListNotations.
 
 Theorem C19_cmp_consistent_with_eq : forall a b, vcmp a b = Eq <-> a = b.
@@ -35,6 +35,36 @@ Theorem C19_merge_sort_model_is_reference_sort : forall (A : Type) (le : A -> A 
   forall l, tsort le l = Some (isort le l).
 Proof. exact @tsort_is_isort. Qed.
 
+(* the `sort` builtin with a three-way comparator (sortedness pre-pass that stops at the first positive answer, then the
+   merge sort above with `is_less a b := cmp a b < 0`): for every comparator whose "not greater" relation is a total
+   preorder and whose sign flips with its arguments, the result is the reference stable sort; and the model that also
+   lists the comparator calls (the list the check compares with what the comparator prints when the interpreter
+   sorts) computes exactly that result *)
+Theorem C19_sort_builtin_is_reference_sort : forall (A : Type) (cmp : A -> A -> comparison),
+  (forall a b, le_of cmp a b = true \/ le_of cmp b a = true) ->
+  (forall a b c, le_of cmp a b = true -> le_of cmp b c = true -> le_of cmp a c = true) ->
+  (forall a b, cmp a b = Lt -> cmp b a = Gt) ->
+  forall l, xsort cmp l = Some (isort (le_of cmp) l).
+Proof. exact @xsort_is_isort. Qed.
+
+Theorem C19_sort_trace_model_erases : forall (A : Type) (cmp : A -> A -> comparison) l,
+  fst (xsortT cmp l) = xsort cmp l.
+Proof. exact @xsortT_erase. Qed.
+
+(* the hypotheses are met by the comparators the check uses (key = residue) *)
+Example C19_key_comparator_ok : forall m : Z, (0 < m)%Z ->
+  let cmp := fun a b : Z => Z.compare (a mod m) (b mod m) in
+  (forall a b, le_of cmp a b = true \/ le_of cmp b a = true) /\
+  (forall a b c, le_of cmp a b = true -> le_of cmp b c = true -> le_of cmp a c = true) /\
+  (forall a b, cmp a b = Lt -> cmp b a = Gt).
+Proof.
+  intros m Hm cmp. unfold le_of, isl, cmp. repeat split.
+  - intros a b. destruct (Z.compare_spec (b mod m) (a mod m)), (Z.compare_spec (a mod m) (b mod m)); auto; lia.
+  - intros a b c. destruct (Z.compare_spec (b mod m) (a mod m)), (Z.compare_spec (c mod m) (b mod m)),
+      (Z.compare_spec (c mod m) (a mod m)); cbn; auto; lia.
+  - intros a b H. apply Z.compare_lt_iff in H. apply Z.compare_gt_iff. exact H.
+Qed.
+
 (* the padding rule of the format-specifier grammar: exactly as wide as asked and never truncated; only fill characters
    are added, sign and body keep their order; a text that fills the width is unchanged *)
 Theorem C19_pad_length : forall fill al width sign body,
@@ -63,6 +93,9 @@ Print Assumptions C19_sort_is_permutation.
 Print Assumptions C19_sort_is_ordered.
 Print Assumptions C19_sort_is_stable.
 Print Assumptions C19_merge_sort_model_is_reference_sort.
+Print Assumptions C19_sort_builtin_is_reference_sort.
+Print Assumptions C19_sort_trace_model_erases.
+Print Assumptions C19_key_comparator_ok.
 Print Assumptions C19_pad_length.
 Print Assumptions C19_pad_shape.
 Print Assumptions C19_pad_noop.
